@@ -389,3 +389,447 @@ def translate(ctx):
     L.append("def moldenConventions : List (ShellType × List (List Char)) := [\n  " + ",\n  ".join(ents) + "]\n")
     L.append("end Iodata.Gen.Cascade\n")
     ctx.gen_write("Cascade", "\n".join(L))
+
+
+# =====================================================================================================
+# shared execution of the real loader on generated files (used by T2 and S)
+ATT_OF = {("raw", "raw"): "standard", ("orca", "raw"): "orca", ("psi4_10", "raw"): "psi4_10",
+          ("turbomole", "raw"): "turbomole", ("raw", "cfour"): "cfour", ("unnorm", "raw"): "unnorm",
+          ("unnorm", "psi4_132"): "psi4_132"}
+ORDER = vf.BRANCHES  # attempt order of the reference cascade
+
+# branch with which each repository fixture loads today; the vendor is in the file name / header.
+# nh3_psi4_1.0 and psi4_*_cc_pvqz are PSI4 >= 1.0 files whose only deviation is unnormalised contractions;
+# the *_sph_cfour d/f/g files carry no [5D]/[7F]/[9G] tag and are therefore read as Cartesian.
+FIXTURES = {
+    "F.molden": "psi4_10", "be_cisd_321g_psi4_singlet.molden": "standard", "ethanol.mkl": "orca",
+    "h2_sto3g.mkl": "orca", "h2o.molden.input": "orca", "h2o_ccpvdz_cfour.molden": "cfour",
+    "h2o_psi4_1.3.2_6-31G_d_cart.molden": "psi4_132", "h_donly_cart_cfour.molden": "cfour",
+    "h_donly_sph_cfour.molden": "cfour", "h_fonly_cart_cfour.molden": "cfour", "h_fonly_sph_cfour.molden": "cfour",
+    "h_gonly_cart_cfour.molden": "cfour", "h_gonly_sph_cfour.molden": "cfour", "h_ponly_cart_cfour.molden": "standard",
+    "h_ponly_sph_cfour.molden": "standard", "h_sonly_cart_cfour.molden": "standard",
+    "h_sonly_sph_cfour.molden": "standard", "he2_ghost_psi4_1.0.molden": "standard", "li2.mkl": "orca",
+    "li2.molden.input": "orca", "neon_turbomole_def2-qzvp.molden": "turbomole", "nh3_molden_cart.molden": "standard",
+    "nh3_molden_pure.molden": "standard", "nh3_molpro2012.molden": "standard", "nh3_orca.molden": "orca",
+    "nh3_psi4.molden": "psi4_10", "nh3_psi4_1.0.molden": "unnorm",
+    "nh3_psi4_1.3.2_aug_cc_pvqz_cart.molden": "psi4_132", "nh3_turbomole.molden": "turbomole",
+    "orca_cuh_cc_pvqz_pure.molden": "orca", "orca_zn_cc_pvqz_pure.molden": "orca",
+    "psi4_cuh_cc_pvqz_pure.molden": "unnorm", "psi4_mn_cc_pvqz_pure.molden": "unnorm",
+    "psi4_zn_cc_pvqz_pure.molden": "unnorm", "water_wrong_spinmult.mkl": "standard",
+}
+BIG = ["nh3_psi4_1.3.2_aug_cc_pvqz_cart.molden", "orca_cuh_cc_pvqz_pure.molden", "orca_zn_cc_pvqz_pure.molden",
+       "psi4_cuh_cc_pvqz_pure.molden", "psi4_mn_cc_pvqz_pure.molden", "psi4_zn_cc_pvqz_pure.molden"]
+
+
+def _types(shells):
+    return [f"{sh['l']}{sh['kind']}" for sh in shells]
+
+
+def _trace_summary(trace):
+    tests = [(t[2], t[3], t[1]) for t in trace if t[0] == "norm"]
+    fixes = {t[1]: t[2] for t in trace if t[0] == "fix"}
+    return tests, fixes
+
+
+def build_case(seed, mode):
+    """Deterministic in (seed, mode)."""
+    rng = random.Random(f"c05-{mode}-{seed}")
+    vendor = rng.choice(vf.VENDORS)
+    fmt = rng.choice(["molden", "molden", "mkl"])
+    while True:
+        case = vf.gen_true(rng, vendor, fmt)
+        if case is not None:
+            break
+    enc = vf.encode(case, vendor, rng)
+    tag = vf.corrupt(case, enc, rng) if mode == "corrupt" else None
+    thr = rng.choice([None, None, 1e-3, 1e-5, 1e-6])
+    digits = rng.choice([12, 14, 17])
+    text = (vf.write_molden if fmt == "molden" else vf.write_mkl)(case, enc, rng, digits)
+    return case, enc, tag, thr, digits, text
+
+
+def _store_matches(case, enc, data):
+    """Which of the harness's own fix variants the returned basis / coefficients equal."""
+    bm, cm = [], []
+    got = [[float(x) for x in s.coeffs[:, 0]] for s in data.obasis.shells]
+    conv = data.obasis.conventions
+    rows = vf.row_labels(enc["shells"])
+    for name in ("raw", "orca", "psi4_10", "turbomole", "unnorm"):
+        if name == "raw":
+            sh2, neg = enc["shells"], None
+        else:
+            sh2, _, neg = vf.own_fix(name, enc["shells"])
+            if sh2 is None:
+                continue
+        same = len(got) == len(sh2) and all(
+            len(a) == len(b["coefs"]) and np.allclose(a, b["coefs"], rtol=1e-9, atol=0) for a, b in zip(got, sh2))
+        # conventions: signs of the labels must be the variant's
+        signs_ok = True
+        for r, (i, l, k, lab) in enumerate(rows):
+            want_neg = neg is not None and neg[r] < 0
+            labs = conv.get((l, k))
+            if labs is None:
+                signs_ok = False
+                break
+            mine = gto.molden_labels(l, k)
+            j = mine.index(lab)
+            if j >= len(labs) or labs[j].lstrip("-") != lab or labs[j].startswith("-") != want_neg:
+                signs_ok = False
+                break
+        if same and signs_ok:
+            bm.append(name)
+    for name in ("raw", "cfour", "psi4_132"):
+        div = None
+        if name != "raw":
+            _, div, _ = vf.own_fix(name, enc["shells"])
+            if div is None:
+                continue
+        ok = True
+        for C, Cl in ((enc["Ca"], data.mo.coeffsa), (enc["Cb"], data.mo.coeffsb if data.mo.kind == "unrestricted" else None)):
+            if C is None:
+                continue
+            C2 = C if div is None else C / div[:, None]
+            if Cl is None or Cl.shape != C2.shape or not np.allclose(Cl, C2, rtol=1e-9, atol=1e-13):
+                ok = False
+        if ok:
+            cm.append(name)
+    return bm, cm
+
+
+def work(arg):
+    """Runs in a worker process: one generated file through the real loader + all own evaluations."""
+    seed, mode = arg
+    try:
+        return _work(seed, mode)
+    except Exception as exc:  # noqa: BLE001 - report, never lose a case silently
+        import traceback
+
+        return {"seed": seed, "mode": mode, "crash": traceback.format_exc()[-1500:]}
+
+
+def _work(seed, mode):
+    case, enc, tag, thr, digits, text = build_case(seed, mode)
+    data, err, warns, trace = vf.run_loader(text, case["fmt"], thr)
+    tests, fixes = _trace_summary(trace)
+    own = vf.own_predicates(case, enc)
+    rec = {
+        "seed": seed, "mode": mode, "vendor": case["vendor"], "fmt": case["fmt"], "unit": case["unit"], "thr": thr,
+        "digits": digits, "types": _types(case["shells"]), "natom": len(case["zs"]), "kind": case["kind"],
+        "nbasis": int(case["Ca"].shape[0]), "tag": tag, "err": err, "warns": vf.warn_classes(warns),
+        "tests": tests, "fixes": fixes, "own": own,
+        "quirky": vf.is_quirky(case["vendor"], case["shells"]),
+        "expected": vf.expected_branch(case["vendor"], case["shells"]),
+        "cmp": None, "store": None,
+    }
+    if data is not None:
+        if mode == "vendor":
+            rec["cmp"] = vf.compare_loaded(case, data)
+        try:
+            rec["store"] = _store_matches(case, enc, data)
+        except Exception as exc:  # noqa: BLE001
+            rec["store"] = (["error:" + type(exc).__name__], [])
+        if mode == "corrupt":
+            # orbitals must at least be normalised w.r.t. what was returned (own evaluator)
+            rec["cmp"] = _norm_check(case, data, thr or 1e-4)
+    return rec
+
+
+def _norm_check(case, data, thr):
+    ps = vf.primset(case)
+    lsh = [{"l": int(s.angmoms[0]), "kind": s.kinds[0], "coefs": [float(x) for x in s.coeffs[:, 0]]} for s in data.obasis.shells]
+    if [(s["l"], s["kind"]) for s in lsh] != [(s["l"], s["kind"]) for s in case["shells"]]:
+        return ("basis-structure", "shell types changed")
+    conv = data.obasis.conventions
+    T = gto.basis_matrix(ps, lsh, lambda l, k: conv[(l, k)])
+    S = T @ ps.overlap() @ T.T
+    worst = 0.0
+    for C in ([data.mo.coeffs] if data.mo.kind == "restricted" else [data.mo.coeffsa, data.mo.coeffsb]):
+        worst = max(worst, float(np.abs(np.einsum("ij,ik,kj->j", C, S, C) - 1).max()))
+    if worst > 1.5 * thr + 1e-9:
+        return ("loaded-unnormalised", f"max norm error {worst:.3e} > threshold {thr:g}")
+    return None
+
+
+def fixture_work(name):
+    import time
+
+    t0 = time.time()
+    p = DATA / name
+    fmt = "mkl" if p.suffix == ".mkl" else "molden"
+    data, err, warns, trace = vf.run_loader(p.read_text(), fmt, None)
+    tests, fixes = _trace_summary(trace)
+    rec = {"name": name, "err": err, "warns": vf.warn_classes(warns), "tests": tests, "fixes": fixes,
+           "types": None, "norm": None, "secs": round(time.time() - t0, 2)}
+    if data is not None:
+        rec["types"] = [f"{int(s.angmoms[0])}{s.kinds[0]}" for s in data.obasis.shells]
+        if data.obasis.nbasis <= 120:
+            # own norm check of what was returned
+            ps = gto.PrimSet([(data.atcoords[s.icenter], int(s.angmoms[0]), [float(x) for x in s.exponents])
+                              for s in data.obasis.shells])
+            lsh = [{"l": int(s.angmoms[0]), "kind": s.kinds[0], "coefs": [float(x) for x in s.coeffs[:, 0]]}
+                   for s in data.obasis.shells]
+            conv = data.obasis.conventions
+            T = gto.basis_matrix(ps, lsh, lambda l, k: conv[(l, k)])
+            S = T @ ps.overlap() @ T.T
+            worst = 0.0
+            for C in ([data.mo.coeffs] if data.mo.kind == "restricted" else [data.mo.coeffsa, data.mo.coeffsb]):
+                worst = max(worst, float(np.abs(np.einsum("ij,ik,kj->j", C, S, C) - 1).max()))
+            rec["norm"] = worst
+    return rec
+
+
+def _pool_map(fn, args):
+    if not args:
+        return []
+    n = min(16, mp.cpu_count() or 1, len(args))
+    with mp.get_context("fork").Pool(n) as pool:
+        return pool.map(fn, args, chunksize=max(1, min(8, len(args) // (4 * n) or 1)))
+
+
+def _ensure_runs(ctx, extra=False):
+    """Run the generated cases once per check (both T2 and S read them)."""
+    st = ctx.__dict__.setdefault("_c05", {"recs": [], "fix": None, "round": 0})
+    if st["fix"] is None:
+        names = sorted(FIXTURES)
+        if not ctx.thorough:
+            big = sorted(BIG)
+            keep = {big[(ctx.seed + i) % len(big)] for i in range(2)}
+            names = [n for n in names if n not in BIG or n in keep]
+        present = [n for n in names if (DATA / n).exists()]
+        st["missing"] = [n for n in names if n not in present]
+        st["unlisted"] = sorted(p.name for p in DATA.iterdir()
+                                if (p.suffix in (".molden", ".mkl") or p.name.endswith(".molden.input"))
+                                and p.name not in FIXTURES)
+        # big fixtures first so that they overlap with everything else
+        present.sort(key=lambda n: (n not in BIG, n))
+        nv, nc = ctx.n(1400, 24000), ctx.n(500, 8000)
+        seeds = [(ctx.rng.getrandbits(48), "vendor") for _ in range(nv)] + [(ctx.rng.getrandbits(48), "corrupt") for _ in range(nc)]
+        jobs = [("fixture", n) for n in present] + [("case", s) for s in seeds]
+        out = _pool_map(_dispatch, jobs)
+        st["fix"] = [r for (k, _), r in zip(jobs, out) if k == "fixture"]
+        st["recs"] = [r for (k, _), r in zip(jobs, out) if k == "case"]
+    if extra and st["round"] == 0:
+        st["round"] = 1
+        nv, nc = ctx.n(3000, 24000), ctx.n(1000, 8000)
+        seeds = [(ctx.rng.getrandbits(48), "vendor") for _ in range(nv)] + [(ctx.rng.getrandbits(48), "corrupt") for _ in range(nc)]
+        st["recs"] += _pool_map(work, seeds)
+    return st
+
+
+def _dispatch(job):
+    kind, arg = job
+    return fixture_work(arg) if kind == "fixture" else work(arg)
+
+
+# =====================================================================================================
+# T2: correspondence with the Lean cascade
+def _bits_and_impl(rec_tests, own, thr, types):
+    """ok bits for all seven attempts (real where executed, own elsewhere) and the implementation's tests string."""
+    real = {}
+    for b, c, ok in rec_tests:
+        att = ATT_OF.get((b, c))
+        if att is not None and att not in real:
+            real[att] = ok
+    bits = ""
+    for att in ORDER:
+        if att in real:
+            bits += "1" if real[att] else "0"
+        else:
+            e = None if own is None else own.get(att)
+            bits += "1" if (e is not None and e <= thr) else "0"
+    tests = ",".join(f"{b}/{c}:{int(ok)}" for b, c, ok in rec_tests)
+    return bits, tests
+
+
+def _impl_line(tests, err, warns, store, model_line):
+    if err is not None:
+        return f"tests={tests} out={err}"
+    lw = [c for cls, c in warns if cls == "LoadWarning" and not c.startswith("other:")]
+    others = [c for cls, c in warns if not (cls == "LoadWarning" and not c.startswith("other:"))]
+    w = "none" if not lw else "+".join(lw)
+    idx = ORDER.index(lw[0]) if len(lw) == 1 and lw[0] in ORDER else (0 if not lw else -1)
+    # store: echo the model's claim iff the returned object equals that variant (own evaluation)
+    claim = None
+    if " store=" in model_line:
+        claim = model_line.split(" store=")[1].strip()
+    if store is None:
+        st = "unchecked"
+    else:
+        bm, cm = store
+        if claim is not None and "/" in claim and claim.split("/")[0] in bm and claim.split("/")[1] in cm:
+            st = claim
+        else:
+            st = "MISMATCH:" + "|".join(bm) + "/" + "|".join(cm)
+    return f"tests={tests} out={idx}:{w} store={st}"
+
+
+def correspond(ctx):
+    st = _ensure_runs(ctx)
+    reqs, meta = [], []
+    for r in st["recs"]:
+        if "crash" in r:
+            raise_infra(r)
+        thr = r["thr"] or 1e-4
+        bits, tests = _bits_and_impl(r["tests"], r["own"], thr, r["types"])
+        reqs.append(f"cascade {','.join(r['types'])} {bits}")
+        meta.append((r, tests, f"{r['mode']}:{r['vendor']}/{r['fmt']}->" + (r["err"] or "+".join(c for _, c in r["warns"]) or "standard")))
+    for f in st["fix"]:
+        if f["types"] is None:
+            continue
+        bits, tests = _bits_and_impl(f["tests"], None, 1e-4, f["types"])
+        reqs.append(f"cascade {','.join(f['types'])} {bits}")
+        fw = [(c, k) for c, k in f["warns"] if not k.startswith("other:")]  # the spin-multiplicity warning is not the cascade's
+        meta.append(({"err": f["err"], "warns": fw, "store": None, "quirky": bool(fw)}, tests, "fixture:" + f["name"]))
+    model = ctx.driver(reqs)
+    impl, nontriv, classes = [], [], []
+    for (r, tests, cls), ml in zip(meta, model):
+        line = _impl_line(tests, r["err"], r["warns"], r.get("store"), ml)
+        if r.get("store") is None and " store=" in ml and r["err"] is None:
+            line = line.replace("store=unchecked", "store=" + ml.split(" store=")[1].strip())
+        impl.append(line)
+        nontriv.append(bool(r.get("quirky", True)) or r["err"] is not None)
+        classes.append(cls)
+    ctx.corr("cascade", reqs, impl, nontriv, classes)
+
+
+def raise_infra(r):
+    from ..engine import InfraError
+
+    raise InfraError(f"C05 worker crashed on seed {r['seed']} ({r['mode']}): {r['crash']}")
+
+
+# =====================================================================================================
+# S: the property itself on the real loader
+def _typeset(types):
+    return ",".join(sorted(set(types)))
+
+
+def judge(rec):
+    """All violations of the property shown by one record: list of (sig, what)."""
+    out = []
+    thr = rec["thr"] or 1e-4
+    lw = [c for cls, c in rec["warns"] if cls == "LoadWarning" and not c.startswith("other:")]
+    other = [f"{cls}:{c}" for cls, c in rec["warns"] if not (cls == "LoadWarning" and not c.startswith("other:"))]
+    ts = _typeset(rec["types"])
+    v = rec["vendor"]
+    own = rec["own"]
+    # (a) the norm predicates and guards as computed by the code vs. the harness's own evaluation
+    for b, c, ok in rec["tests"]:
+        att = ATT_OF.get((b, c))
+        if att is None:
+            out.append((f"normtest:unknown-variant:{b}/{c}", f"norm test on an unexpected basis/coefficient pair {b}/{c}"))
+            continue
+        e = own.get(att)
+        if e is None:
+            out.append((f"guard:{att}", f"attempt {att} was tested although its fix touches no shell of {ts}"))
+        elif (e <= thr / 3 and not ok) or (e >= 3 * thr and ok):
+            out.append((f"normtest:{att}", f"norm test of attempt {att} returned {ok} but the maximal norm error is "
+                                           f"{e:.3e} (threshold {thr:g})"))
+    names = {"psi4_10": "psi4_10", "turbomole": "turbomole", "cfour": "cfour", "psi4_132": "psi4_132"}
+    for fx, notnone in rec["fixes"].items():
+        if fx in names and (own.get(names[fx]) is not None) != notnone:
+            out.append((f"guard:{fx}", f"fix {fx} returned {'a value' if notnone else 'None'} for shell types {ts}"))
+    if other:
+        out.append((f"cascade:unexpected-warning:{v}", "unexpected warnings: " + "; ".join(other)[:200]))
+    if rec["mode"] == "vendor":
+        exp = rec["expected"]
+        if rec["err"] is not None:
+            out.append((f"cascade:rejected:{v}:{ts}", f"{v} file ({ts}) raised {rec['err']}"))
+            return out
+        got = "standard" if not lw else "+".join(lw)
+        if rec["cmp"] is not None:
+            out.append((f"cascade:{got}-taken-for-{v}:{ts}" if got != exp else f"cascade:wrong-wavefunction:{v}:{ts}",
+                        f"{v} file ({ts}) loaded with correction '{got}' but {rec['cmp'][0]}: {rec['cmp'][1]}"))
+        if got != exp:
+            out.append((f"cascade:warning:{got}-for-{v}:{ts}",
+                        f"{v} file ({ts}) announced as '{got}', expected '{exp}'"))
+    else:
+        safe = [e for e in own.values() if e is not None]
+        allfail = all(e > 10 * thr for e in safe)
+        if allfail and rec["err"] != "LoadError":
+            got = rec["err"] or ("standard" if not lw else "+".join(lw))
+            out.append((f"cascade:corrupt-loaded:{rec['tag']}",
+                        f"file damaged by {rec['tag']} (no correction yields normalised orbitals: min error "
+                        f"{min(safe):.2e}) was not rejected: {got}"))
+        if rec["err"] is not None and rec["err"] != "LoadError":
+            out.append((f"cascade:corrupt-exception:{rec['err']}", f"damaged file raised {rec['err']} instead of LoadError"))
+        if rec["err"] is None:
+            if rec["cmp"] is not None:
+                out.append((f"cascade:{rec['cmp'][0]}:{rec['tag']}", f"damaged file loaded but {rec['cmp'][1]}"))
+            if len(lw) > 1:
+                out.append(("cascade:two-warnings", "more than one correction announced"))
+            # whatever was taken must be the first attempt that passes (clear margins only)
+            first = None
+            clear = True
+            for att in ORDER:
+                e = own.get(att)
+                if e is None:
+                    continue
+                if thr / 3 < e < 3 * thr:
+                    clear = False
+                    break
+                if e <= thr:
+                    first = att
+                    break
+            got = "standard" if not lw else lw[0]
+            if clear and first is not None and got != first:
+                out.append((f"cascade:not-first:{got}-before-{first}", f"attempt {got} taken although {first} passes first"))
+        if rec["err"] == "LoadError" and any(e <= thr / 3 for e in safe):
+            out.append(("cascade:rejected-fixable", "LoadError although an attempt yields normalised orbitals"))
+    return out
+
+
+def search(ctx):
+    st = _ensure_runs(ctx, extra=ctx.escalated)
+    for r in st["recs"]:
+        if "crash" in r:
+            raise_infra(r)
+        bad = judge(r)
+        exp = r["expected"] if r["mode"] == "vendor" else "corrupt:" + str(r["tag"])
+        outc = r["err"] or "+".join(c for _, c in r["warns"]) or "standard"
+        cls = f"{r['vendor']}/{r['fmt']}{'-' + r['unit'] if r['fmt'] == 'molden' else ''}/{exp}->{outc}"
+        ctx.count("load-" + r["mode"], [r["seed"], r["mode"]], cls if not bad else cls + "/FAIL",
+                  nontrivial=bool(r["quirky"]) or r["mode"] == "corrupt",
+                  sample={k: r[k] for k in ("vendor", "fmt", "unit", "thr", "digits", "types", "kind", "err", "warns", "expected")})
+        for sig, what in bad:
+            ctx.fail(sig, what, {"kind": "case", "seed": r["seed"], "mode": r["mode"], "vendor": r["vendor"],
+                                 "fmt": r["fmt"], "types": r["types"], "thr": r["thr"], "sig": sig,
+                                 "own_norm_errors": r["own"], "tests": r["tests"], "warns": r["warns"], "err": r["err"]})
+    cov = {}
+    for f in st["fix"]:
+        lw = [c for cls, c in f["warns"] if cls == "LoadWarning" and not c.startswith("other:")]
+        got = f["err"] or ("standard" if not lw else "+".join(lw))
+        exp = FIXTURES[f["name"]]
+        ok = got == exp and (f["norm"] is None or f["norm"] <= 1.5e-4)
+        cov[f["name"]] = got
+        ctx.count("fixture", f["name"], f"{exp}->{got}", nontrivial=exp != "standard")
+        if got != exp:
+            ctx.fail(f"fixture-branch:{f['name']}", f"fixture {f['name']} loads with '{got}', committed expectation '{exp}'",
+                     {"kind": "fixture", "name": f["name"]})
+        elif not ok:
+            ctx.fail(f"fixture-norm:{f['name']}", f"fixture {f['name']}: orbitals have norm error {f['norm']:.2e} w.r.t. the returned basis",
+                     {"kind": "fixture", "name": f["name"]})
+    for n in st.get("missing", []):
+        ctx.fail(f"fixture-missing:{n}", f"fixture {n} disappeared", {"kind": "fixture", "name": n})
+    ctx.extra_cov["fixture_branches"] = cov
+    ctx.extra_cov["fixtures_without_expectation"] = st.get("unlisted", [])
+    recs = [r for r in st["recs"] if "crash" not in r]
+    ctx.extra_cov["shell_type_sets"] = len({_typeset(r["types"]) for r in recs})
+    ctx.extra_cov["lmax_hist"] = {str(k): sum(1 for r in recs if max(int(t[:-1]) for t in r["types"]) == k) for k in range(6)}
+
+
+def replay(ctx, obj):
+    inp = obj["input"]
+    if inp.get("kind") == "fixture":
+        f = fixture_work(inp["name"])
+        lw = [c for cls, c in f["warns"] if cls == "LoadWarning" and not c.startswith("other:")]
+        got = f["err"] or ("standard" if not lw else "+".join(lw))
+        return got != FIXTURES.get(inp["name"]) or (f["norm"] is not None and f["norm"] > 1.5e-4)
+    rec = work((inp["seed"], inp["mode"]))
+    if "crash" in rec:
+        print(rec["crash"])
+        return True
+    bad = judge(rec)
+    for sig, what in bad:
+        print(" ", sig, "--", what)
+    return any(sig == inp.get("sig") for sig, _ in bad) or bool(bad)
